@@ -183,10 +183,10 @@ theorem C18_scope_restores_all (scn : Scenario) (top : List Nat) (es : List Even
 /-! ## The hook clause is false of the code: witnesses (known finding F14) -/
 
 /-- one process, one step, nothing in it -/
-def witnessScn : Scenario := ⟨[[⟨[], .finish⟩]], []⟩
+def witnessScn : Scenario := { classes := [[⟨[], .finish⟩]], cbs := [] }
 
 /-- a parent whose step launches a child of class 1 -/
-def witnessChildScn : Scenario := ⟨[[⟨[.launch 1], .finish⟩], [⟨[], .finish⟩]], []⟩
+def witnessChildScn : Scenario := { classes := [[⟨[.launch 1], .finish⟩], [⟨[], .finish⟩]], cbs := [] }
 
 /-- **witness**: in the model — as in the code — the first tick of a top-level process fires `on_run` (from
 `transition_to`, after `_run_task(Created.execute)` returned) and that hook observes `Process.current() = None` -/
@@ -221,9 +221,9 @@ theorem C18_transition_hooks_are_lifecycle (old : Option PMF.Label) (new : PMF.L
 /-- class 0: `run` = sample, await, out, call_soon(cb 0), launch(class 1), execute(class 1), then `Wait`, then a last step;
 class 1: await, sample, raise -/
 def demoScn : Scenario :=
-  ⟨[[⟨[.obs, .await, .out, .callSoon 0, .launch 1, .execute 1], .wait⟩, ⟨[.obs], .finish⟩],
-    [⟨[.await, .obs], .raise⟩]],
-   [[.obs, .await]]⟩
+  { classes := [[⟨[.obs, .await, .out, .callSoon 0, .launch 1, .execute 1], .wait⟩, ⟨[.obs], .finish⟩],
+                [⟨[.await, .obs], .raise⟩]],
+    cbs := [[.obs, .await]] }
 
 /-- two top-level processes; the nested loop of `execute()` ticks the other top-level process, the callback and the
 child before the nested process; the parked process is resumed at the end -/
@@ -253,12 +253,12 @@ class 4; class 1: await, sample, `Wait`, then a step that raises a BaseException
 inline (nesting depth 3), await; class 3: sample, await, sample (also instantiated at top level: a peer in another task);
 class 4: out, `Wait` -/
 def inlineScn : Scenario :=
-  ⟨[[⟨[.inline 1, .obs, .await, .inline 2, .inline 4], .finish⟩],
-    [⟨[.await, .obs], .wait⟩, ⟨[.obs], .raiseBase⟩],
-    [⟨[.await, .inline 3, .await], .finish⟩],
-    [⟨[.obs, .await, .obs], .finish⟩],
-    [⟨[.out], .wait⟩, ⟨[], .finish⟩]],
-   []⟩
+  { classes := [[⟨[.inline 1, .obs, .await, .inline 2, .inline 4], .finish⟩],
+                [⟨[.await, .obs], .wait⟩, ⟨[.obs], .raiseBase⟩],
+                [⟨[.await, .inline 3, .await], .finish⟩],
+                [⟨[.obs, .await, .obs], .finish⟩],
+                [⟨[.out], .wait⟩, ⟨[], .finish⟩]],
+    cbs := [] }
 
 /-- the parent (task 0, pid 0) and a peer (task 1, pid 1) interleaved; the first inline child (pid 2) is resumed from its
 wait and raises a BaseException; the task is cancelled while the child of the child (pid 4, stack 0·3·4) is suspended at
@@ -295,7 +295,7 @@ example : let T := ((runEvents (init inlineScn [0, 3]) (inlineEvents.take 8)).ta
     ((unwind .cancelled 0 T.code).take 2) = [.pop 4 .cancelled, .handler 3 [3, 0] true] := by decide
 /-- a top-level process cancelled in the middle of its step: its task ends (nothing absorbs), the scope was left (`cancelled`),
 no transition hook ran after it, and the open-scope history of the finished task is empty -/
-example : let σ := runEvents (init ⟨[[⟨[.await, .obs], .finish⟩]], []⟩ [0]) [.tick 0, .cancel 0, .tick 0]
+example : let σ := runEvents (init { classes := [[⟨[.await, .obs], .finish⟩]], cbs := [] } [0]) [.tick 0, .cancel 0, .tick 0]
     σ.err = none ∧ σ.tasks.map (fun T => (T.done, T.stack, T.saved)) = [(true, [], [])] ∧
     σ.scopes.map (fun x => (x.pid, x.how, x.before, x.after)) = [(0, .cancelled, [], []), (0, .returned, [], [])] ∧
     (σ.log.head?.map (·.kind)) = some .seg := by decide
